@@ -32,8 +32,15 @@ static const char* scripts[][4] = {
     {"L", "T", "", ""},      // 3: trylock until success
     {"L", "t", "L", ""},     // 4: single trylock attempt mixed with lockers
     {"LL", "LL", "", ""},    // 5
+    {"L", "T", "L", ""},     // 6: a trylock that keeps failing (and yielding) while a third fiber queues up behind the holder
+    {"L", "L", "T", ""},     // 7
+    {"T", "L", "L", ""},     // 8
 };
 static int shape;
+// -Dgen=K -Dfibers=F: every program of F fibers with 1..K operations each over {L, T, t} is
+// enumerated as an input instead of one of the shapes above
+static char genbuf[4][8];
+static const char* cur[4];
 
 static void critical(int id) {
   int v = cs_var;
@@ -43,7 +50,7 @@ static void critical(int id) {
 
 static void* body(void* p) {
   int id = (int)(intptr_t)p;
-  for (const char* s = scripts[shape][id]; *s; s++) {
+  for (const char* s = cur[id]; *s; s++) {
     if (*s == 'L') {
       fiber_mutex_lock(&mtx);
       acquired(id, 0);
@@ -80,10 +87,23 @@ int harness_main(void) {
   fmc_focus(&mtx, sizeof mtx);
   fmc_focus((void*)&cs_var, sizeof cs_var);
   int nf = 0;
-  while (nf < 4 && scripts[shape][nf][0]) nf++;
   fiber_t* f[4];
   fmc_begin();
-  for (int i = 0; i < nf; i++) f[i] = fiber_create(STK, body, (void*)(intptr_t)i);
+  int gen = fmc_param("gen", 0);
+  if (gen) {
+    nf = fmc_param("fibers", 2);
+    for (int i = 0; i < nf; i++) {
+      int len = 1 + fmc_input(gen);
+      for (int k = 0; k < len; k++) genbuf[i][k] = "LTt"[fmc_input(3)];
+      cur[i] = genbuf[i];
+    }
+  } else {
+    while (nf < 4 && scripts[shape][nf][0]) nf++;
+    for (int i = 0; i < 4; i++) cur[i] = scripts[shape][i];
+  }
+  int order[8];
+  rt_creation_order(nf, order);
+  for (int i = 0; i < nf; i++) f[order[i]] = fiber_create(STK, body, (void*)(intptr_t)order[i]);
   fmc_yield();
   for (int i = 0; i < nf; i++) {
     void* r = 0;
